@@ -49,6 +49,12 @@ def inplace_pairs(prog, x):
 
         gs = rng.choice(groupings(rng, nd, 4))
         out.append(("fuse", lambda a: a.fuse(*gs), lambda a: a.fuse(*gs, inplace=True)))
+        # with empty groups (each becomes a new size-one axis unless expand_empty=False)
+        gse = list(gs)
+        for _ in range(rng.randint(1, 2)):
+            gse.insert(rng.randint(0, len(gse)), ())
+        ee = rng.random() < 0.75
+        out.append(("fuse-empty-group", lambda a: a.fuse(*gse, expand_empty=ee), lambda a: a.fuse(*gse, expand_empty=ee, inplace=True)))
         shape = tuple(ix.size_total for ix in x.indices)
         tg = [t for t in sorted(reachable_targets(shape)) if t != ()]
         t = rng.choice(tg)
